@@ -76,7 +76,11 @@ impl Blob {
         }
 
         let mut limited = reader.take(self.length);
-        copy(&mut limited, writer).read_err("Failed to read binary blob data")
+        let copied = copy(&mut limited, writer).read_err("Failed to read binary blob data")?;
+        if copied != self.length {
+            Error::invalid("Blob data ends before the expected length was read")?
+        }
+        Ok(copied)
     }
 
     pub(crate) fn write<T: Read + Write + Seek>(
